@@ -249,3 +249,14 @@ PROPS["C16"] = dict(
     ],
     assumptions=["dimensions below 65536 (the format's own limit, enforced by the encoder)"],
 )
+
+PROPS["C14"] = dict(
+    rule="builder inputs over versions VanillaEarly..MoP (cycled): 1..5 textures with names of varying length, 0..3 models, 0..2 WMOs, placements, optional flight bounds (TBC+), water with 1..3 layers per chunk on arbitrary chunks incl. first/last (WotLK+), texture flags, amplifier, and 0 (256 generated chunks), 1, 3 or 256 populated terrain chunks with heights and optional layers+alpha, shadow, references, vertex colours switched on/off per chunk. For every tile: the serialised bytes are walked by an independent chunk reader (must tile the file; MCNK sub-chunks must tile the chunk), the layout of the file is given to the Lean model which recomputes MHDR (flags and 11 offsets), all 256 MCIN entries and the 15 derived MCNK header fields and compares them with the bytes in the file; parse_adt's content must equal the builder's, and three rounds of from_root_adt->to_bytes->parse must keep the content and not grow the file. non-trivial = a tile that passed all comparisons",
+    trusted_base=COMMON_TB + [
+        "content equality is by a canonical rendering of the parsed structures written in the harness (floats by bit pattern); derived fields (offsets, sizes, counts) are excluded from it and checked through the model instead",
+        "the version label inferred from chunk presence is not content: a MoP tile without MoP-only chunks is byte-for-byte a WotLK tile; label differences are counted, their consequences (content change, growth) are checked",
+        "absent MTXF and all-zero MTXF are the same content (the serializer always writes the chunk for WotLK+)",
+        "MCNK chunk payloads are validated as written by this crate (136-byte header); sub-chunk payload encodings are the parsers' business",
+    ],
+    assumptions=[],
+)
